@@ -25,6 +25,7 @@ import (
 	"github.com/massnetorg/mass-core/trie/rawdb"
 	"github.com/massnetorg/mass-core/txscript"
 	"github.com/massnetorg/mass-core/wire"
+	"github.com/sirupsen/logrus"
 	"massnet.org/mass-wallet/config"
 )
 
@@ -242,7 +243,7 @@ func (e *Env) Attach(blk *massutil.Block) error {
 		e.DB.Rollback()
 		return fmt.Errorf("OpenBindingTrie: %v", err)
 	}
-	if err := e.AI.SyncAttachBlock(trie, blk, store); err != nil {
+	if err := safely(func() error { return e.AI.SyncAttachBlock(trie, blk, store) }); err != nil {
 		e.DB.Rollback()
 		return fmt.Errorf("SyncAttachBlock: %v", err)
 	}
@@ -272,7 +273,7 @@ func (e *Env) Detach() error {
 	if err := e.DB.DeleteBlock(&tip); err != nil {
 		return fmt.Errorf("DeleteBlock: %v", err)
 	}
-	if err := e.AI.SyncDetachBlock(blk); err != nil {
+	if err := safely(func() error { return e.AI.SyncDetachBlock(blk) }); err != nil {
 		return fmt.Errorf("SyncDetachBlock: %v", err)
 	}
 	if err := e.DB.Commit(tip); err != nil {
@@ -374,3 +375,20 @@ func (e *Env) Coinbase(height uint64, pkScript []byte, value int64, uniq uint64)
 	tx.SetPayload(w[:])
 	return tx
 }
+
+// safely turns mass-core's PANIC-level log (a panic carrying a *logrus.Entry) into an error.
+func safely(f func() error) (err error) {
+	defer func() {
+		if r := recover(); r != nil {
+			if en, ok := r.(*logrus.Entry); ok {
+				err = fmt.Errorf("panic: %s %v", en.Message, en.Data)
+			} else {
+				err = fmt.Errorf("panic: %v", r)
+			}
+		}
+	}()
+	return f()
+}
+
+// Root returns the binding-state root after the given block.
+func (e *Env) Root(h wire.Hash) common.Hash { e.mu.Lock(); defer e.mu.Unlock(); return e.roots[h] }
